@@ -33,6 +33,7 @@ type CEnv struct {
 	bound map[string]CVal
 	tparams map[string]types.Type
 	panicking string // value of panicking() in this environment
+	freePtrs map[string]CVal // captured variables: name -> pointer to the cell
 }
 
 func typeParamsOf(fn *ssa.Function) map[string]types.Type {
@@ -63,8 +64,17 @@ func (fv *FnV) pkgTypes() *types.Package {
 func (fv *FnV) contractEnv(st, old *State, results []*SV) *CEnv {
 	env := &CEnv{fv: fv, st: st, old: old, vars: map[string]CVal{}, pkg: fv.pkgTypes(), bound: map[string]CVal{}, tparams: typeParamsOf(fv.fn)}
 	// entry values of parameters: name0 and name (parameters are re-bound by SSA when reassigned; the contract sees entry values)
+	env.freePtrs = map[string]CVal{}
+	isFree := map[string]bool{}
+	for _, f := range fv.fn.FreeVars {
+		isFree[f.Name()] = true
+	}
 	for name, sv := range fv.params {
 		cv := CVal{T: fv.term(sv), S: fv.g.sortOf(sv.typ), Typ: sv.typ}
+		if isFree[name] {
+			env.freePtrs[name] = cv
+			continue
+		}
 		env.vars[name] = cv
 		env.vars[name+"0"] = cv
 	}
@@ -108,10 +118,11 @@ func (fv *FnV) calleeEnv(st, old *State, callee *ssa.Function, args []*SV, clo *
 		env.vars[p.Name()] = cv
 		env.vars[p.Name()+"0"] = cv
 	}
+	env.freePtrs = map[string]CVal{}
 	if clo != nil {
 		for i, f := range callee.FreeVars {
 			b := fv.val(clo.Bindings[i])
-			env.vars[f.Name()] = CVal{T: fv.term(b), S: fv.g.sortOf(f.Type()), Typ: f.Type()}
+			env.freePtrs[f.Name()] = CVal{T: fv.term(b), S: fv.g.sortOf(f.Type()), Typ: f.Type()}
 		}
 	}
 	if res != nil {
@@ -329,6 +340,9 @@ func (e *CEnv) ev(x ast.Expr) CVal {
 		case token.AND:
 			// address of a local variable
 			if id, ok := x.X.(*ast.Ident); ok {
+				if p, ok := e.freePtrs[id.Name]; ok {
+					return p
+				}
 				for _, d := range e.fv.localNames[id.Name] {
 					if al, ok := d.X.(*ssa.Alloc); ok && d.IsAddr {
 						if sv, done := e.fv.vals[al]; done {
@@ -392,6 +406,11 @@ func (e *CEnv) ident(name string) CVal {
 	}
 	if v, ok := e.vars[name]; ok {
 		return v
+	}
+	if p, ok := e.freePtrs[name]; ok {
+		// a captured variable denotes its current value
+		pt := types.Unalias(p.Typ).Underlying().(*types.Pointer)
+		return e.val(e.fv.loadAt(e.st, &Ptr{kind: pPlain, ref: p.T, elemT: pt.Elem()}, pt.Elem()), pt.Elem())
 	}
 	if v, ok := e.local(name); ok {
 		return v
@@ -853,6 +872,27 @@ func (e *CEnv) call(x *ast.CallExpr) CVal {
 			cfail("elems: not a slice")
 		}
 		return CVal{T: sel(e.fv.heapGet(e.st, g.compElem(stt.Elem())), "(s!ref "+s.T+")"), S: fmt.Sprintf("(Array (_ BitVec 64) %s)", g.sortOf(stt.Elem()))}
+	case "update":
+		a := arg(0)
+		if !strings.HasPrefix(a.S, "(Array ") {
+			cfail("update: not an array")
+		}
+		// element sorts from the array sort text: (Array K V)
+		inner := strings.TrimSuffix(strings.TrimPrefix(a.S, "(Array "), ")")
+		var ks, vs string
+		if strings.HasPrefix(inner, "(") {
+			j := matchClose(inner, 0)
+			ks, vs = inner[:j+1], strings.TrimSpace(inner[j+1:])
+		} else {
+			sp := strings.IndexByte(inner, ' ')
+			ks, vs = inner[:sp], strings.TrimSpace(inner[sp+1:])
+		}
+		k := e.coerce(arg(1), ks, nil)
+		v := e.coerce(arg(2), vs, nil)
+		if v.S != vs && vs == sAny && v.Typ != nil {
+			v = CVal{T: e.g().box(e.fv.c, v.T, v.Typ), S: sAny}
+		}
+		return CVal{T: sto(a.T, k.T, v.T), S: a.S}
 	case "ref":
 		s := arg(0)
 		if s.S == sSlice {
@@ -863,7 +903,7 @@ func (e *CEnv) call(x *ast.CallExpr) CVal {
 		return CVal{T: "(s!off " + arg(0).T + ")", S: sBV64, Typ: intT}
 	case "held":
 		m := arg(0)
-		return CVal{T: "(> " + sel(e.fv.heapGet(e.st, "G|held"), m.T) + " 0)", S: sBool, Typ: boolT}
+		return CVal{T: not(eq(sel(e.fv.heapGet(e.st, "G|held"), m.T), "0")), S: sBool, Typ: boolT}
 	case "wgcount":
 		return CVal{T: sel(e.fv.heapGet(e.st, "G|wg"), arg(0).T), S: sInt}
 	case "buf":
